@@ -150,6 +150,7 @@ def run(tier, seed):
         # ---- and the patterns themselves, one line at a time: None-ness and groups() of fullmatch
         ck.count('lines matched by a pattern', iod.run_pattern_stream(ck, (0, 1, 2), rng, 6000 if thorough else 600, {0: iod.PTE_STARTS, 1: iod.PTE_LINES[:12], 2: iod.PTE_ENDS}))
 
+        opt_calls, OPT_N = [], (120 if thorough else 40)
         replies = lean_batch(reqs)
         unloaded = set()
         for (kind, hdr, data, extra), r in zip(meta, replies):
@@ -166,6 +167,8 @@ def run(tier, seed):
                 continue
             if kind == 'raw':
                 real = il.parse_ilog_data(memoryview(data), hdr)
+                if len(opt_calls) < OPT_N and rng.random() < 0.2:
+                    opt_calls.append(('ilog', data, [hdr], real))
                 ck.case(key=('raw', extra, data) if len(data) >= 8 else None, sample={'table': extra, 'data': data.hex()[:48]})
                 ck.count('raw bytes')
                 if r.lines()[2:] != real[2:] or len(real) < 2:
@@ -175,6 +178,8 @@ def run(tier, seed):
             data = r.bytes()
             model, spec = r.lines(), r.lines()
             real = il.parse_ilog_data(memoryview(data), hdr)
+            if len(opt_calls) < OPT_N and rng.random() < 0.1:
+                opt_calls.append(('ilog', data, [hdr], real))
             nz = [e for e in es if e != (0, 0, 0)]
             ck.case(key=(name, data) if nz else None, sample={'table': name, 'entries': es[:3], 'tail': tail.hex()})
             ck.count('entries=%s tail=%d' % ('1' if len(es) == 1 else 'many', len(tail)))
@@ -186,6 +191,7 @@ def run(tier, seed):
                 ck.fail('ILOG output contradicts the property', rp | {'first_difference': k, 'expected': spec[k:k + 1], 'actual': real[k:k + 1]}, 'ilog_lines')
             if real[2:] != model[2:] or len(real) != len(model):
                 ck.disagree('parse_ilog_data differs from model', rp | {'impl': real[:5], 'model': model[:5]})
+        iod.check_optimised(ck, opt_calls, 'ILOG samples')
         # ---- a header file that is rewritten between two decodes in one process
         synth = [pth for nm, pth in loader_files if nm.startswith('synth') and os.path.exists(pth)]
         import re as _re
